@@ -241,14 +241,33 @@ def run(ctx, prop):
         ctx.note("scripts that stopped being applicable on the real code: %s (last: %s)" % (
             c.get("scripts_diverged"), (rep.get("summary") or {}).get("last_divergence")))
 
+    # ---- 4b. composition (spec/node/LightNode.tla): the same DASer sampling through the REAL light
+    # availability over a scripted getter that serves real samples of real squares (C04 only)
+    node_files = []
+    if prop == "C04":
+        r = ctx.tlc("node/LightNode.tla", "node/LightNode_quick.cfg" if quick else "node/LightNode_thorough.cfg",
+                    workers=workers, timeout=900 if quick else 3000, include=["das", "light"], heap="12g")
+        fam_path = os.path.join(ctx.work, "scenarios_node.json")
+        json.dump(fam, open(fam_path, "w"))
+        nrep = ctx.go_driver("das", env={"VERIF_SCENARIOS": fam_path, "VERIF_RANDOM": 30 if quick else 300, "VERIF_NODE": 1,
+                                         "VERIF_COMBOS": "2,1;2,2;1,2", "VERIF_TRACE_PREFIX": "node_"},
+                             timeout=1500 if quick else 3400,
+                             keep=lambda sig: sig.startswith("C04/") or sig.startswith("NODE/"))
+        nc = nrep.get("counters") or {}
+        ctx.cover(node_scenarios=int(nc.get("scenarios", 0)), node_drains_verified=int(nc.get("node_drains_verified", 0)))
+        if nc.get("node_drains_verified", 0) < 1:
+            ctx.inconclusive("vacuity: no composed scenario reached the end-to-end oracle")
+        if not quick:
+            node_files = list((nrep.get("summary") or {}).get("trace_files") or [])
+
     # ---- 5. trace validation
     n_ok = 0
-    for tf in (rep.get("summary") or {}).get("trace_files") or []:
+    for tf in ((rep.get("summary") or {}).get("trace_files") or []) + node_files:
         # trace_r<range>_c<conc>.ndjson
         rng = int(tf.split("_r")[1].split("_")[0])
         conc = int(tf.split("_c")[1].split(".")[0])
         consts = dict(MaxHeight=64, Range=rng, Conc=conc, FailBudget=1000000, CancelBudget=1000000, StopBudget=1000000)
-        cfg = write_cfg(ctx, "trace_r%d_c%d" % (rng, conc), consts, mc=False, props="",
+        cfg = write_cfg(ctx, tf.replace(".ndjson", ""), consts, mc=False, props="",
                         extra="INIT TraceInit\nNEXT TraceNext\nPOSTCONDITION TraceAccepted")
         path = os.path.join(ctx.work, tf)
         os.environ["VERIF_TRACE"] = path
